@@ -136,9 +136,9 @@ func cmdCheck(args []string) {
 	t0 := time.Now()
 	seed := 0
 	fmt.Sscanf(os.Getenv("VERIF_SEED"), "%d", &seed)
-	timeout := 10 * time.Second
+	timeout := 30 * time.Second
 	if *tier == "thorough" {
-		timeout = 60 * time.Second
+		timeout = 120 * time.Second
 	}
 	code := runCheck(*prop, *tier, seed, timeout, *writeBaseline, *verbose, t0)
 	os.Exit(code)
@@ -225,7 +225,7 @@ func runCheck(prop, tier string, seed int, timeout time.Duration, writeBaseline,
 			trusted[a] = true
 		}
 	}
-	SolveAll(units, tmp, timeout, 6)
+	SolveAll(units, tmp, timeout, 12)
 
 	base := &Baseline{Property: prop}
 	bpath := filepath.Join(verifDir, "baseline", prop+".json")
